@@ -3,64 +3,64 @@
 import json, subprocess
 checks = {
  "C01": dict(level="exploration", technique="differential runtime monitor: byte-equality oracle over corpus + seeded comment mutations, 5 entry points",
-   text="Runs the real decorate/restore/print pipeline through all five public entry points on every gofmt-canonical file of the toolchain source tree (quick: stratified sample) and on seeded comment/blank-line mutations of them, comparing the printed bytes with the input. Holds only on the inputs executed; witnesses are reduced and classified by dst-independent syntactic predicates so known findings never mask a new root cause. Also: every third corpus file and every construct snippet with a //line directive after the package clause (generated-code style); construct snippets cover rare layouts (labels at the end of a block, empty bodies holding only a comment, multi-line generic instantiations and signatures, multi-line raw strings).",
+   text="Runs the real decorate/restore/print pipeline through all five public entry points on every gofmt-canonical file of the toolchain source tree (quick: stratified sample) and on seeded comment/blank-line mutations of them, comparing the printed bytes with the input. Holds only on the inputs executed; witnesses are reduced and classified by dst-independent syntactic predicates so known findings never mask a new root cause. Also: every third corpus file and every construct snippet with a //line directive after the package clause (generated-code style); construct snippets cover rare layouts (labels at the end of a block, empty bodies holding only a comment, multi-line generic instantiations and signatures, multi-line raw strings). Also: a package worker that restores every file of a directory with one FileRestorer and prints them afterwards.",
    note="trusts go/format (go1.23.5) as the definition of gofmt-canonical; corpus = GOROOT/src + /repo; generated inputs on which gofmt is not idempotent are inconclusive", ref="5/C01"),
  "C02": dict(level="exploration", technique="model-based history checking: text-chunk edit model + go/format vs dst list edits with Clone",
-   text="Generates commented sibling lists of all 9 kinds (case clauses as switch and select clauses; varied element node types) (two lists per file), cuts the chunks from the gofmt-canonical text, applies the same seeded edit history (swap, rotate, reverse, delete, duplicate via Clone, move between lists) to the chunk lists and to the dst node slices, and requires print(dst) == gofmt(edited text). Twelve list kinds since validation (type specs and const specs added).",
+   text="Generates commented sibling lists of all 9 kinds (case clauses as switch and select clauses; varied element node types) (two lists per file), cuts the chunks from the gofmt-canonical text, applies the same seeded edit history (swap, rotate, reverse, delete, duplicate via Clone, move between lists) to the chunk lists and to the dst node slices, and requires print(dst) == gofmt(edited text). Twelve list kinds since validation (type specs and const specs added). A third of the trailing comments are a block comment followed by a line comment on the element's line.",
    note="only uniform layouts (decided from the text and gofmt) are in the domain; gofmt-non-idempotent texts are inconclusive", ref="5/C02"),
  "C04": dict(level="exploration", technique="online exactly-once monitor on the restorer's Dec hook + placement/order assertions on restored positions + accessor reflection monitor",
-   text="Decorates every attachment point (found by reflection) of corpus trees with unique comments, all at once and one site at a time; checks exactly-once in the hook log and in the print, unchanged token stream, placement of Start/End/named points relative to the restored positions of the tokens and children they are named for, order within a node, dstutil.Decorations / Node.Decorations() against the node's own storage, and the round trip of gofmt-stable decorated output. Also: Start / X / End of every package-qualified identifier restored with import management (hook and print exactly-once, documented place).",
+   text="Decorates every attachment point (found by reflection) of corpus trees with unique comments, all at once and one site at a time; checks exactly-once in the hook log and in the print, unchanged token stream, placement of Start/End/named points relative to the restored positions of the tokens and children they are named for, order within a node, dstutil.Decorations / Node.Decorations() against the node's own storage, and the round trip of gofmt-stable decorated output. Also: Start / X / End of every package-qualified identifier restored with import management (hook and print exactly-once, documented place). Also: decorations on and around an import alias that the import manager renames (override, override-all, conflict).",
    note="placement is asserted on restored ast positions; points without a token/child referent are order-only", ref="5/C04"),
  "C05": dict(level="exploration", technique="reference-model monitor, exhaustive over all Before/After assignments for n<=3 (n<=4 thorough) x 8 list kinds x 6 comment patterns, plus seeded longer lists",
-   text="Enumerates every assignment of None/NewLine/EmptyLine to Before and After of up to 3 (thorough 4) list elements for eight list kinds (two restored with import management) and six Start/End line-comment / newline patterns, prints, and compares the blank-line skeleton read with go/scanner against the model written from the statement (max-combination, fresh-line reduction, explicit newlines, edge blank lines where gofmt keeps them). Eleven list kinds and nine patterns since validation (statements of mixed kinds, bare break/continue, bare blocks; two-line block comment as End decoration; decorations directly after the opening delimiter).",
+   text="Enumerates every assignment of None/NewLine/EmptyLine to Before and After of up to 3 (thorough 4) list elements for eight list kinds (two restored with import management) and six Start/End line-comment / newline patterns, prints, and compares the blank-line skeleton read with go/scanner against the model written from the statement (max-combination, fresh-line reduction, explicit newlines, edge blank lines where gofmt keeps them). Eleven list kinds and nine patterns since validation (statements of mixed kinds, bare break/continue, bare blocks; two-line block comment as End decoration; decorations directly after the opening delimiter). Also: a list kind whose elements are 24 different expression node types.",
    note="which list kinds keep edge blank lines is calibrated at run time by asking gofmt on plain text", ref="5/C05"),
  "C07": dict(level="exploration", technique="independent import-table oracle over re-parsed output for seeded import configurations",
-   text="Builds files with seeded import-block shapes, references (each uniquely named), alias overrides and resolvers, restores with import management and checks reference binding, exact import set, distinct names, alias precedence, untouched sections and determinism on the re-parsed output. References stand in 18 syntactic positions (calls, type-parameter constraints, field and embedded types, receivers, union terms, instantiations, ...); paths include case twins and raw-string literals.",
+   text="Builds files with seeded import-block shapes, references (each uniquely named), alias overrides and resolvers, restores with import management and checks reference binding, exact import set, distinct names, alias precedence, untouched sections and determinism on the re-parsed output. References stand in 18 syntactic positions (calls, type-parameter constraints, field and embedded types, receivers, union terms, instantiations, ...); paths include case twins and raw-string literals. A quarter of the configurations restore as a package that itself lives in a vendor directory.",
    note="precedence asserted only when preferred names do not collide", ref="5/C07"),
  "C08": dict(level="exploration", technique="byte-equality + path-sequence oracle with independently derived package names; go/types (source importer) for the types-based resolver",
    text="Decorates canonical corpus files with goast (exact map) and gotypes (std packages type-checked from source), restores with import management through exact-name resolvers, requires byte identity and the same (Name, Path) sequence after re-decorating; includes comment/line-break mutations around the dot of qualified identifiers and in import specs. Also: generated type-checked programs (gotypes, two dot-imports per file possible), insertions around the whole qualified identifier, a site-exhaustive family over context files, and whole directories through the import-resolving Decorator.ParseDir.",
    note="package names come from package clauses under GOROOT/src / go/types; files failing plain round trip are classified like C01", ref="5/C08"),
  "C09": dict(level="exploration", technique="differential classification of every identifier against go/types; goast vs gotypes agreement inside goast's domain",
-   text="For std packages type-checked from source and generated multi-package programs, computes from go/types alone which identifiers denote package-level objects of other packages (vendor prefix stripped by the oracle's own code) and compares with Ident.Path; goast must agree on dot-import-free files and must return an error where it cannot decide. Refused files are queried again (second decorator sharing the resolver, direct ResolveIdent calls).",
+   text="For std packages type-checked from source and generated multi-package programs, computes from go/types alone which identifiers denote package-level objects of other packages (vendor prefix stripped by the oracle's own code) and compares with Ident.Path; goast must agree on dot-import-free files and must return an error where it cannot decide. Refused files are queried again (second decorator sharing the resolver, direct ResolveIdent calls). Generated programs are also decorated through NewDecoratorFromPackage with package IDs that differ from the import path; one library path has an element that merely ends in vendor.",
    note="go/types is the reference", ref="5/C09"),
  "C10": dict(level="exploration", technique="go/types before/after oracle over seeded move histories in generated multi-package programs",
-   text="Moves declarations between files of one package and into a different package (ResolveLocalPath), restores the targets with import management (with and without alias overrides), re-type-checks and compares what every identifier of the moved code denotes.",
+   text="Moves declarations between files of one package and into a different package (ResolveLocalPath), restores the targets with import management (with and without alias overrides), re-type-checks and compares what every identifier of the moved code denotes. One library path has an element that merely ends in vendor.",
    note="the statement's proviso (no shadowing of chosen import names, no unexported references across packages) holds by construction of the generator", ref="5/C10"),
  "C18": dict(level="exploration", technique="graph-isomorphism monitor on object/scope graphs (first-occurrence labelling) + differential against go/ast.NewPackage",
-   text="Compares the parser's identifier-resolution graph with the decorated and the Extras-restored graphs (sharing partition, kind, name, data, declaration links through the node maps, file scopes) and dst.NewPackage with ast.NewPackage (nil importer and mirrored fake importer/universe) on real and generated multi-file packages. Also: the *ast.Package built by ast.NewPackage is decorated and compared (package scope, Outer chain, Imports objects and their scopes).",
+   text="Compares the parser's identifier-resolution graph with the decorated and the Extras-restored graphs (sharing partition, kind, name, data, declaration links through the node maps, file scopes) and dst.NewPackage with ast.NewPackage (nil importer and mirrored fake importer/universe) on real and generated multi-file packages. Also: the *ast.Package built by ast.NewPackage is decorated and compared (package scope, Outer chain, Imports objects and their scopes). Also: trees decorated with the syntax-only resolver and type-checked generated programs decorated with the go/types resolver (ResolveLocalPath off and on).",
    note="for redeclared names only presence is compared (winner depends on map order in go/ast too)", ref="5/C18"),
  "C03": dict(level="exploration", technique="differential runtime monitor: go/scanner token + comment streams of dst output vs go/format output over formatting transforms",
-   text="Pushes corpus files through nine formatting transforms (CRLF, BOM, spaces, no indentation, trailing whitespace, doubled/removed/whitespace-only blank lines) and raw comment insertions, and compares the scanner token sequence and the comment sequence of dst's output with gofmt's; root cause of a violation is established by re-running on the line-ending-normalised input. Also: a //line directive (LF and CRLF), an own-line / block / end-of-line comment before every token of every construct snippet, and a strict comparison of trailing commas.",
+   text="Pushes corpus files through nine formatting transforms (CRLF, BOM, spaces, no indentation, trailing whitespace, doubled/removed/whitespace-only blank lines) and raw comment insertions, and compares the scanner token sequence and the comment sequence of dst's output with gofmt's; root cause of a violation is established by re-running on the line-ending-normalised input. Also: a //line directive (LF and CRLF), an own-line / block / end-of-line comment before every token of every construct snippet, and a strict comparison of trailing commas. Also: the token-gap insertions with import management on both sides over files with qualified identifiers in many positions.",
    note="go/format is the reference; cases where gofmt itself rewrites comment text or is not idempotent are inconclusive", ref="5/C03"),
  "C12": dict(level="exploration", technique="position-space monitor: reflection over every token.Pos of the restored ast, file-set disjointness, line table, rank-order isomorphism against a fresh parse with gofmt calibration",
-   text="Restores corpus trees (plain, densely decorated, import-managed, Extras) into a caller file set shared by sequences of up to 12 restores interleaved with caller AddFile calls; checks range, disjointness, line table, comment order and the order isomorphism between restored positions and a fresh parse of the printed text. Also: one FileRestorer re-used for three files with line-table / reprint / position snapshots of the earlier files.",
+   text="Restores corpus trees (plain, densely decorated, import-managed, Extras) into a caller file set shared by sequences of up to 12 restores interleaved with caller AddFile calls; checks range, disjointness, line table, comment order and the order isomorphism between restored positions and a fresh parse of the printed text. Also: one FileRestorer re-used for three files with line-table / reprint / position snapshots of the earlier files. Also: cloned trees, and a rule that every token of the printed text other than the five positions dst does not model has a restored position.",
    note="comment/token inversions that gofmt reproduces on plain text, or that sit next to a //-comment (printer's pending-semicolon rule), are attributed to go/printer and only counted", ref="5/C12"),
  "C14": dict(level="exploration", technique="differential execution against golang.org/x/tools astutil.Apply under seeded cursor-operation scripts",
    text="Runs the same script of pre/post decisions and cursor edits through dstutil.Apply on the dst tree and astutil.Apply on the go/ast tree it was decorated from, and compares callback logs (with the cursor invariant evaluated at each callback), panic parity, returned roots and final tree shapes. Also: root scripts (the root replaced in pre/post, abort at or below it).",
    note="astutil v0.1.12 is the reference model; callbacks on nil children are not compared", ref="5/C14"),
  "C16": dict(level="exploration", technique="Go race detector (-race build) + sequential-equivalence and repetition monitors under hook-injected yields",
-   text="Runs rounds of 2-128 goroutines with private decorators/restorers and shared resolvers in a -race binary, perturbing the schedule at verifhook points outside the resolver lock; every race report is a violation, every concurrent result must equal the same call made alone, and repeated calls must give identical bytes. Evidence records the maximum number of goroutines simultaneously inside the shared resolver, cache hits/misses and distinct interleaving hashes. Also: a shared gobuild resolver, a restore-only first operation per goroutine, read-only-resolver monitors, and groups of files decorated as one *ast.Package repeatedly (map order).",
+   text="Runs rounds of 2-128 goroutines with private decorators/restorers and shared resolvers in a -race binary, perturbing the schedule at verifhook points outside the resolver lock; every race report is a violation, every concurrent result must equal the same call made alone, and repeated calls must give identical bytes. Evidence records the maximum number of goroutines simultaneously inside the shared resolver, cache hits/misses and distinct interleaving hashes. Also: a shared gobuild resolver, a restore-only first operation per goroutine, read-only-resolver monitors, and groups of files decorated as one *ast.Package repeatedly (map order). Also: a worker operation that restores three files with one FileRestorer and prints them afterwards.",
    note="race detector reports only races that occur on the executed schedules", ref="5/C16"),
  "C17": dict(level="fault_enumeration", technique="fault injection at the resolver interfaces (fail-at-k wrappers) with reflection snapshots and retry comparison",
-   text="For each file a clean run counts the resolver calls K; the k-th call is then made to fail for every k (all k <= 48, else 48 sampled), for the identifier resolver during decoration and the package-name resolver during import-managed restore, plus failures inside goast's cache, a genuinely missing name, and fail-fail-retry sequences. Seven fault kinds since validation (alias overrides in every scenario; identifier resolver failing inside Decorator.Parse of a source with a recoverable syntax error).",
+   text="For each file a clean run counts the resolver calls K; the k-th call is then made to fail for every k (all k <= 48, else 48 sampled), for the identifier resolver during decoration and the package-name resolver during import-managed restore, plus failures inside goast's cache, a genuinely missing name, and fail-fail-retry sequences. Seven fault kinds since validation (alias overrides in every scenario; identifier resolver failing inside Decorator.Parse of a source with a recoverable syntax error). Ninth fault kind: resolver failures under Decorator.ParseDir on a scratch directory.",
    note="exhaustive over fault positions per file when K <= 48", ref="5/C17"),
  "C20": dict(level="fault_enumeration", technique="strace system-call monitor around Package.SaveWithResolver in a child process + directory snapshots + resolver fault injection per file index",
-   text="Saves hand-built packages (1-10 files in 1-3 directories, unedited / edited / resolver failing at the first use of a path in file i) in a child under strace; the offline checker requires the set and order of modified paths between two marker syscalls to equal the recorded source paths up to the failing file, and snapshots decide content, modes and bystander integrity. Packages include a generated-code style file (//line directive naming another file) and a file whose imports are referenced only in type positions.",
+   text="Saves hand-built packages (1-10 files in 1-3 directories, unedited / edited / resolver failing at the first use of a path in file i) in a child under strace; the offline checker requires the set and order of modified paths between two marker syscalls to equal the recorded source paths up to the failing file, and snapshots decide content, modes and bystander integrity. Packages include a generated-code style file (//line directive naming another file) and a file whose imports are referenced only in type positions. Fifth scenario: a type-checked package decorated as Load does (go/types resolver) under a plain, vendored, GOROOT-vendored or govendor-like own path, saved unedited.",
    note="strace -f sees all threads of the child; expected bytes are computed independently in the parent", ref="5/C20"),
  "C06": dict(level="exploration", technique="reflection monitors: deep-equality, storage-disjointness, scramble-and-recheck, print equality, shared-node rejection",
-   text="Clones reflection-built instances of all 54 node types (every field non-zero) and densely decorated corpus trees; the monitor's own reflection walker checks structural equality, disjoint pointers/maps/backing arrays, that mutating either side leaves an independent snapshot of the other unchanged, that substituting clones prints identically, and that one node at two places makes RestoreFile panic while a clone prints. Package.Imports is filled with package objects and must be dropped by Clone.",
+   text="Clones reflection-built instances of all 54 node types (every field non-zero) and densely decorated corpus trees; the monitor's own reflection walker checks structural equality, disjoint pointers/maps/backing arrays, that mutating either side leaves an independent snapshot of the other unchanged, that substituting clones prints identically, and that one node at two places makes RestoreFile panic while a clone prints. Package.Imports is filled with package objects and must be dropped by Clone. Also: one node in two files restored by one Restorer (4 entry points).",
    note="FuncDecl.Type.Decs.Before/After and File.Unresolved are outside the statement (never consulted by printing / part of object resolution) and are cleared in the inputs", ref="5/C06"),
  "C11": dict(level="exploration", technique="online map-law monitor over Decorator.Map and Restorer.Map (inverse, totality, type agreement, edge preservation, nil keys)",
-   text="Decorates and restores corpus files in four configurations (plain, Extras, goast import resolution, edited paths forcing selector synthesis) and checks the node-map laws against independent ast.Inspect / dst.Inspect enumerations. Also: pairs of files through one Decorator (as *ast.Package and through Decorator.ParseDir) and one Restorer, with the first file's laws re-checked after the second restore.",
+   text="Decorates and restores corpus files in four configurations (plain, Extras, goast import resolution, edited paths forcing selector synthesis) and checks the node-map laws against independent ast.Inspect / dst.Inspect enumerations. Also: pairs of files through one Decorator (as *ast.Package and through Decorator.ParseDir) and one Restorer, with the first file's laws re-checked after the second restore. Also: hand-built trees of every node type with each optional child, list or parameter list absent in turn.",
    note="entries for detached object declarations are allowed as extra keys; laws are enforced for every node inside either tree", ref="5/C11"),
  "C13": dict(level="exploration", technique="differential traversal monitor against go/ast.Inspect and a reflection-derived child list; bracket-discipline and pruning checkers",
-   text="Compares dst.Inspect/Walk visit logs with go/ast's traversal of the source ast (through the node map), with the reflection pre-order, with the well-nestedness of enter/nil events, and with the exact visited set under seeded pruning predicates, on corpus files, ParseDir packages and filled instances of every node type with each optional child absent in turn.",
+   text="Compares dst.Inspect/Walk visit logs with go/ast's traversal of the source ast (through the node map), with the reflection pre-order, with the well-nestedness of enter/nil events, and with the exact visited set under seeded pruning predicates, on corpus files, ParseDir packages and filled instances of every node type with each optional child absent in turn. Also: go/ast packages (corpus directories, hand-built packages with //line directives claiming one file name) decorated as one node, dst.Inspect against ast.Inspect.",
    note="trees with a nil mandatory child are malformed and excluded (go/ast itself calls Visit(nil) on them)", ref="5/C13"),
  "C15": dict(level="exploration", technique="crash monitor: recover() + child-process death attribution over seeded byte corruptions and a hostile input list",
    text="Feeds corrupted, truncated, spliced and hostile byte strings to every parse entry point and prints every tree returned; any panic, process death, (nil,nil) result or unreported parser error is a violation. Also: a comment, line break or truncation before every token of every construct snippet, and directories through the import-resolving Decorator.ParseDir.",
    note="deaths of a worker process are attributed through a per-case journal and the shard is resumed after the culprit", ref="5/C15"),
  "C19": dict(level="exploration", technique="model-based history checking against a []string reference model with arena snapshots for aliasing",
-   text="Random operation histories on one Decorations list are stepped in lock-step with a plain []string model; caller-side slices live in a shared arena that is snapshotted around each call and later mutated by the caller to expose retained aliases; rendering is compared with All(). Arguments may be sub-slices of All() or slices kept from an earlier All(); slices returned by All() must only change through the caller's own writes; rendering is checked at 21 decoration points.",
+   text="Random operation histories on one Decorations list are stepped in lock-step with a plain []string model; caller-side slices live in a shared arena that is snapshotted around each call and later mutated by the caller to expose retained aliases; rendering is compared with All(). Arguments may be sub-slices of All() or slices kept from an earlier All(); slices returned by All() must only change through the caller's own writes; rendering is checked at 21 decoration points. Renderings also go through a file restorer that has already printed another decorated file.",
    note="writes through the slice returned by All() are treated as legitimate writes to the node's own storage", ref="5/C19"),
 }
 m = {
